@@ -566,7 +566,7 @@ def diff(ctx: Ctx) -> List[Ob]:
     env = ctx.env
 
     def O(f, label, ok, why="", node=None, props=("C11",)):
-        obs.append(ctx.ob("DIFF", list(props), f, label, node, bool(ok), "" if ok else why))
+        obs.append(ctx.tri("DIFF", list(props), f, label, node, None if ok is None else bool(ok), why))
 
     dc = {k for k in m.classes["DiffClassification"].consts}
     f = m.func("diff_tree")
@@ -599,6 +599,10 @@ def diff(ctx: Ctx) -> List[Ob]:
     fcf = m.func("_find_child")
     a0, c0 = fcf.positional_params()[:2]
     ok = has(f"if $c == {c0}:\n    return ($i, $c)", fcf.node) and has(f"enumerate({a0})", fcf.node)
+    if not ok:
+        # witnessed wrong: the comparison is by identity; anything else (another result type ...) is not read here
+        cmps_ = [n for n in ast.walk(fcf.node) if isinstance(n, ast.Compare) and c0 in (norm(n.left), norm(n.comparators[0]))]
+        ok = False if any(isinstance(n.ops[0], (ast.Is, ast.IsNot)) for n in cmps_) or not cmps_ else (None if any(isinstance(n.ops[0], ast.Eq) for n in cmps_) else False)
     O(fcf, "_find_child matches peers by node equality (== compares the data objects)", ok,
       "identity of the data objects differs between two separately built trees: identical trees would show REMOVED marks")
     cmp_ = [g for g in f.nested if len(g.positional_params()) == 3]
@@ -629,7 +633,7 @@ def diff(ctx: Ctx) -> List[Ob]:
         O(cmp_, f"DC.{member} marks copies of children of the {'first' if src == p0 else 'second'} tree's node", ok,
           f"the mark must sit on result nodes copied from `{src}.children`")
     # one-sided children of the second node: by data_id against a set local to this call
-    from .util import path_conds as _pc, reaching_values as _rv
+    from .util import cond_texts, path_conds as _pc, reaching_values as _rv
 
     lp1 = [n for n in iter_own(cmp_.node) if isinstance(n, ast.For) and norm(n.iter) in (f"{p1}.children", f"{p1}._children")]
     ok = None
@@ -673,9 +677,12 @@ def diff(ctx: Ctx) -> List[Ob]:
         lp0 = [n for n in iter_own(cmp_.node) if isinstance(n, ast.For) and f"{p0}.children" in norm(n.iter)]
         e = match(f"for $i0, $c0 in enumerate({p0}.children):\n    ...", lp0[0]) if lp0 else None
         fe = one(f"$i1, $c1 = _find_child({p1}.children, $c0)", cmp_.node, e) if e else None
-        ok = e is not None and fe is not None and match("($i0, $i1)", om[0].args[1], {**e, **fe[1]}) is not None
-        p_ = m.parent_of(m.parent_of(om[0]))
-        ok = ok and isinstance(p_, ast.If) and norm(p_.test) == "ordered"
+        if e is not None and fe is None and len(om[0].args[1].elts) == 2 and norm(om[0].args[1].elts[0]) == e["$i0"] and norm(om[0].args[1].elts[1]) != e["$i0"]:
+            ok = None  # old index first; the peer's index is carried in another shape than a tuple unpacking
+        else:
+            ok = e is not None and fe is not None and match("($i0, $i1)", om[0].args[1], {**e, **fe[1]}) is not None
+    if ok:
+        ok = ok and "ordered" in cond_texts(_pc(ctx, cmp_, om[0]))
     O(cmp_, "order marks carry (old index, new index) and are written only when ordered=True", ok, "order marks carry the true old and new index")
     # move re-classification
     from .util import loop_var_iter, path_conds, resolve_expr
